@@ -1,5 +1,5 @@
 (* C03: case vocabulary, model runner, property predicate. *)
-From OIDC Require Import Lib C03_Redirect C03_Handlers.
+From OIDC Require Export Lib C03_Redirect C03_Handlers.
 
 (* oracle tables filled by the driver with the real functions' answers *)
 Record tables := {
@@ -110,6 +110,19 @@ Section Spec.
         end
     | _, _ => false
     end.
+
+  (* readable form: where any answer of any history can send the user agent *)
+  Definition safe_out (x : out) : Prop :=
+    match x with
+    | ORedirect fr _ t =>
+        exists c u rt cq cf, In c cs /\ Registered glob (fun u => u_loop (info u)) c u rt /\
+          u_canon (info u) = Some (cq, cf) /\ t = (if fr then cf else cq)
+    | OForm t =>
+        exists c u rt, In c cs /\ Registered glob (fun u => u_loop (info u)) c u rt /\ u_form (info u) = Some t
+    | OPanic | OOther => False
+    | _ => True
+    end.
+
 End Spec.
 
 Definition vres_eqb (a b : vres) : bool :=
